@@ -23,9 +23,18 @@ def stat_types(rec):
 
 
 def documented_discard(rec):
-    """Outcomes that mici documents (AdaptationError) and that end a scenario early."""
+    """Outcomes that mici documents (AdaptationError) and that end a scenario early, and
+    runs in which a chain left floating-point range (an accepted state beyond 1e30: energy
+    overflow made the Hamiltonian -inf/NaN-free) so that an adapter's estimator input is
+    numerically meaningless and its finalize raised a linear-algebra error."""
     if rec.outcome == "exception:AdaptationError":
         return "adaptation-error-raised"
+    if rec.outcome and rec.outcome.startswith("exception:") and any(a["ev"] == "finalize-raised" for a in rec.log.adapter):
+        for e in rec.log.entries:
+            for var in ("pos", "mom"):
+                x = e["state"].get(var)
+                if x is not None and (not np.all(np.isfinite(x)) or np.max(np.abs(x)) > 1e30):
+                    return "numerical-blow-up-before-adapter-finalize"
     for c in rec.log.calls:
         if c["outcome"] == "AdaptationError":
             return "adapter-initialisation-failed"
